@@ -149,6 +149,18 @@ func H_C04_keyOrder() {
 	if tail != 0 {
 		add(3 + tail)
 	}
+	// all inputs are drawn before the first assertion (a replay record ends at the failing assertion)
+	del := vC04Choice("delete", -1, 5)
+	if del >= 0 {
+		present := false
+		for _, x := range m.order {
+			if x == del {
+				present = true
+			}
+		}
+		vAssume(present)
+	}
+	app := vC04Choice("append", 5, 12) // 5 = nothing
 	// --- the classification kernel agrees with the table on every pool key ---
 	classOK := true
 	for _, k := range vC04KeyPool {
@@ -164,15 +176,7 @@ func H_C04_keyOrder() {
 	vAssert("keys:strToArrayIdx==table", classOK)
 
 	// --- step 1: delete a present key (or nothing) ---
-	del := vC04Choice("delete", -1, 5)
 	if del >= 0 {
-		present := false
-		for _, x := range m.order {
-			if x == del {
-				present = true
-			}
-		}
-		vAssume(present)
 		b._delete(vC04KeyPool[del].name)
 		m.remove(del)
 		u, p, s, c, v := vC04KeysInv(b)
@@ -191,7 +195,6 @@ func H_C04_keyOrder() {
 		vAssert("delete:idxPropCount==index-names-in-sorted-region", cnt == b.idxPropCount)
 	}
 	// --- step 2: append a new key through the real [[Set]] path (or nothing) ---
-	app := vC04Choice("append", 5, 12) // 5 = nothing
 	if app > 5 {
 		ok := b.setOwnStr(vC04KeyPool[app].name, valueInt(int64(app)), false)
 		vAssert("append:accepted", ok)
